@@ -250,7 +250,116 @@ def rule_parsers(ck):
             ck.violation("parser::Parser.literal", f"Parser.literal('AbC') on text {code!r} gives {ps[0].value!r}", construct="Parser.literal case")
 
 
+# --------------------------------------------------------------------------------------------------------------
+# C10.parse: the statement parser sees through letter case, horizontal whitespace, blank lines and comments
+# corpus: each statement is a list of pieces; ("c", text) is code, ("l", text) a string/character literal kept verbatim
+def _c(t):
+    return ("c", t)
+
+
+def _l(t):
+    return ("l", t)
+
+
+CORPUS = [
+    [_c("mov r0, r1")], [_c("mov #12, @#100")], [_c("mov @(r2)+, -(sp)")], [_c("clr tbl+2(r3)")], [_c("add @10(pc), r5")], [_c("jsr pc, sub1")],
+    [_c("br lab")], [_c("sob r2, lab")], [_c("lab: nop")], [_c("lab2:: nop")], [_c("1: dec r0")], [_c("bne 1")], [_c("x = 5")], [_c("y == x + 3")],
+    [_c(". = . + 10")], [_c(".word 1, 2, lab+2")], [_c("1, 2, 3")], [_c(".byte 12, 0x1f, 10.")], [_c(".ascii "), _l('"ab"'), _c("<12>"), _l("/cd/")],
+    [_c(".asciz "), _l('"x;y"')], [_c(".rad50 "), _l("/abc/")], [_c(".blkb 10")], [_c(".even")], [_c(".repeat 3 { nop }")], [_c(".link 2000")],
+    [_c(".include "), _l('"f.mac"')], [_c("make_raw "), _l('"out"')], [_c("mov #<1+2>*3, r0")], [_c("mov #^xff & 0b101, r0")], [_c("mov #"), _l('"ab'), _c(", r0")],
+    [_c("mov #"), _l("'a"), _c(", r0")], [_c("emt 377")], [_c("mov %1, @%2")], [_c("mov x(r1), -y(r2)")], [_c(".extern all")], [_c("a = b _ 2 ! 1")], [_c("a = ^c1")],
+    [_c("insert_file "), _l('"data.bin"')], [_c("tst (r1)")], [_c("tst @r1")], [_c("mov #-1, r0")],
+]
+
+
+def _respell(pieces, how):
+    out = []
+    for kind, t in pieces:
+        if kind == "l":
+            out.append(t)
+            continue
+        if how == "upper":
+            t = t.upper()
+        elif how == "spaces":
+            t = t.replace(", ", " ,\t ").replace(" ", " \t ")
+        elif how == "tight":
+            t = t.replace(", ", ",").replace(" + ", "+").replace(" = ", "=").replace(" == ", "==").replace(" & ", "&").replace(" ! ", "!")      # not " _ ": b_2 is a name
+        out.append(t)
+    text = "".join(out)
+    if how == "spaces":
+        text = " \t" + text + " \t "
+    if how == "comment":
+        text = "; leading comment 'x \"y\n\n" + text + " ; trailing: mov r0, r1 \"quoted\" 'c\n\n ; another\n"
+    if how == "blank":
+        text = "\n\n \n" + text + "\n\n\t\n"
+    return text + ("" if text.endswith("\n") else "\n")
+
+
+def _tree_norm(t):
+    """parse tree without positions, names case-folded, numbers by value"""
+    if isinstance(t, Rec):
+        f = t.fields
+        cname = t.cls.name
+        if cname == "Context":
+            return "<ctx>"
+        if "char" in t.cls.attrs:
+            base = t.cls.bases[0].name if getattr(t.cls, "bases", None) else "?"
+            cname = f"{base}:{t.cls.attrs['char']}"
+        if cname == "Number":
+            return ("Number", f.get("value"), f.get("is_valid_label"), f.get("invalid_base8"))
+        items = []
+        for k, v in sorted(f.items()):
+            if k in ("ctx_start", "ctx_end", "ctx", "value", "reported_error", "evaluated_value", "label_error_emitted", "assignment_error_emitted") and cname not in ("Assignment",):
+                continue
+            if k in ("ctx_start", "ctx_end"):
+                continue
+            if k == "name" and isinstance(v, str):
+                v = v.lower()
+            if k == "representation" and isinstance(v, str):
+                v = v[:1] + v[1:]      # character literals: the quote and the characters, kept as written
+            items.append((k, _tree_norm(v)))
+        return (cname, tuple(items))
+    if isinstance(t, (list, tuple)):
+        return tuple(_tree_norm(x) for x in t)
+    return t if isinstance(t, (str, int, bool, bytes, type(None))) else repr(t)
+
+
+def rule_respell(ck):
+    """For each statement of the corpus the real `code` parser is run (abstractly) on the statement as written and on its
+    respellings; the parse trees must agree up to positions, letter case of names and the spelling of numbers."""
+    from .c05 import run_parser
+    repo = ck.repo
+    I = eager_interp(repo)
+    where = "parser::code"
+    n = 0
+    # the package's __init__ imports every module: the directive registry the parser consults must be complete
+    reg = I.explore(lambda: (I.module_get("metacommands", "rad50"), I.module_get("insns", "instructions"), I.module_get("builtins", "builtin_commands")))
+    if len(reg) != 1 or reg[0].kind != "return" or "make_raw" not in reg[0].value[2].fields["container"]:
+        raise Unknown("the directive registry does not fold (make_raw is not registered)")
+    for pieces in CORPUS:
+        plain = _respell(pieces, "plain")
+        try:
+            r0, pos0, errs0, raised0 = run_parser(I, "code", plain)
+        except Unknown as ex:
+            raise Unknown(f"statement {plain!r}: {ex}") from None
+        if raised0 or errs0 or pos0 < len(plain.rstrip()):
+            raise Unknown(f"corpus statement {plain!r} does not parse cleanly (errors {errs0}, raised {raised0}, stopped at {pos0})")
+        want = _tree_norm(r0)
+        for how in ("upper", "spaces", "tight", "comment", "blank"):
+            text = _respell(pieces, how)
+            if how == "tight" and text == plain:
+                continue
+            r, pos, errs, raised = run_parser(I, "code", text)
+            n += 1
+            ck.instance(("respell", plain.strip(), how), {"statement": plain.strip(), "respelling": how, "text": text[:60]} if n % 7 == 0 else None, fn=where)
+            got = _tree_norm(r) if r is not None else None
+            if raised or errs or got != want:
+                ck.violation(where, f"the statement {plain.strip()!r} respelled ({how}) as {text!r} parses differently: "
+                                    + (f"errors {errs} / raised {raised}" if raised or errs else f"tree {str(got)[:160]} instead of {str(want)[:160]}")
+                                    + " - the emitted bytes depend on spelling, not on meaning", construct=f"respelling {how}: {plain.strip()}")
+
 def run(ck):
+    ck.run_rule("C10.parse", "letter case, horizontal whitespace, blank lines and comments do not change the parse tree (real parser on a statement corpus)", 150, rule_respell)
     ck.run_rule("G6", "comparisons of source text with cased constants are case-folded", 25, rule_G6)
     ck.run_rule("G6.tab", "symbol/instruction/operator tables are case-insensitive; every method lowers its key", 10, rule_tables)
     ck.run_rule("G6.par", "Parser.regex / Parser.literal ignore case by default and no site overrides it", 30, rule_parsers)
